@@ -13,6 +13,10 @@ CHECKS = {
    technique="runtime monitoring: output read back by an independent RTF reader and compared with the input frame; conservation hook on the three paginate() methods",
    text="For every generated table (all strategies, nrow 1..50, wrapped rows, header/footnote/source variants, single and multi-section) the parsed data rows of all pages, concatenated, must equal the DataFrame's display texts in order; every table row must be classifiable by sentinel; a hook on DefaultPaginationStrategy/PageByStrategy/SublineStrategy.paginate asserts that the page slices partition the frame. Includes a completely enumerated rows x nrow x strategy x header grid.",
    note="trusted: reader; sentinel tagging of one key column per table; group_by absent (C13)"),
+ "C05": dict(cat="exploration", ref="5/C05",
+   technique="runtime monitoring: per-page sequence of heading rows, heading paragraphs and tagged data rows of the parsed output vs an independent walker over the input keys",
+   text="Sorted group-key sequences (1-3 page_by levels, inner labels restarting under every parent, subline_by, one divider group) are rendered by the real library at page sizes that make groups start, end and continue at every in-page offset; the exhaustive part enumerates every composition of n rows into runs. On each parsed page the sequence of full-width heading rows and tagged data rows must equal the sequence a walker regenerates from the keys and the observed page membership (continuation heading at the page top, outer before inner, inner re-rendered when the outer changes, no heading for dividers, none stranded); with subline_by every page must carry the paragraph naming its single group before the first table row.",
+   note="trusted: reader; spanning mode only; keys contiguous per level as the quantifier says"),
  "C06": dict(cat="exploration", ref="5/C06",
    technique="runtime monitoring: per-page role sequence and page-break geometry of the parsed output vs the placement rules; metamorphic re-encoding of one-page documents under all 27 placement combinations",
    text="The placement product (page_title x page_footnote x page_source x footnote/source form x pageby_header x strategy x header mode) is rendered at three sizes by the real library (complete in thorough, every 9th element in quick) together with random paper sizes and figure documents; on every parsed page the presence, multiplicity, form and order of title, subline, column headers, body, footnote and source are compared with the configured placement, every page break must restate the document-start geometry (which must be inches x 1440 +-1), and \\header/\\footer destinations are counted. One-page documents are re-encoded under all 27 placement combinations and must give identical strings.",
